@@ -115,6 +115,8 @@ class World:
         self.release = False                       # lets "ignores" daemons go at close()
         self.spin = (-1, 0)
         self.sleeps = 0
+        self.frozen_since: int | None = None
+        self.held: list[tuple] = []
         self.killer_crash: dict | None = None
         self.cur_proc: dict[str, dict] = {}
 
@@ -133,7 +135,7 @@ class World:
                 w.emit('kpass')                                      # a pass of the killer starts listing the memories
                 for dm in super().iter_all_daemon_memories():       # RuntimeError of the real iteration passes through
                     uid = next((k for k, m in self_._items.items() if m.daemons_memory is dm), None)
-                    w.emit('kenter', uid=uid)
+                    w.emit('kenter', uid=uid, snap=w._snap(dm))
                     try:
                         yield dm
                     finally:
@@ -446,6 +448,12 @@ class World:
         return {'apiVersion': 'kv.dev/v1', 'kind': 'Thing', 'metadata': meta, 'spec': {'x': o['x']}}
 
     def _enqueue(self, uid: str, etype: str | None, body: dict) -> None:
+        # While the operator is paused its watch-streams are stopped: only what is already in flight at the moment of pausing
+        # (same virtual instant) still reaches the processor (#1266); everything later waits for the resumption.
+        if self.frozen_since is not None and self.now() > self.frozen_since:
+            self.held.append((uid, etype, body))
+            self.emit('held', uid=uid, type=etype)
+            return
         self.queues.setdefault(uid, []).append({'type': etype, 'object': body})
         h = self.touch_handles.pop(uid, None)
         if h is not None:
@@ -574,9 +582,17 @@ class World:
 
     def pause(self, on: bool) -> None:
         self.emit('act', op='pause' if on else 'resume')
+        if on and self.frozen_since is None:
+            self.frozen_since = self.now()
         t = self.loop.spawn(self.pause_toggle.turn_to(on))
         self.loop.settle()
         t.result()
+        if not on:
+            self.frozen_since = None
+            held, self.held = self.held, []
+            for (uid, etype, body) in held:           # the streams are re-established: what happened meanwhile arrives now
+                self._enqueue(uid, etype, body)
+            self.loop.settle()
 
     def exit(self, horizon_ms: int = 60000) -> bool:
         """Operator exit: cancel the killer (as the orchestrator does) and wait for it (virtual time)."""
